@@ -697,10 +697,10 @@ theorem command_error_reply_nonempty (client : Str) (e : CommandError) :
   · cases e <;> simp [errorPrefix]
 
 example : commandErrorReply (str "bob") (.needMoreParams .JOIN) =
-      str "461 bob JOIN :Not enough parameters" ∧
+      (Reply.ErrNeedMoreParams461 (client := str "bob") (command := str "JOIN")) ∧
     Command.fromMessage ⟨none, str "foo", [str "x"]⟩ = .error (.unknownCommand (str "FOO")) ∧
     commandErrorReply (str "bob") (.unknownCommand (str "FOO")) =
-      str "421 bob FOO :Unknown command" ∧
+      (Reply.ErrUnknownCommand421 (client := str "bob") (command := str "FOO")) ∧
     Command.fromMessage ⟨none, str "JOIN", [str "a"]⟩ = .error (.wrongParameter .JOIN 0) ∧
     commandErrorReply (str "bob") (.wrongParameter .JOIN 0) =
       str "ERROR :Wrong parameter 0 in command 'JOIN'" := by decide
